@@ -465,8 +465,8 @@ pub fn run(tier: &str, seed: u64) -> i32 {
         let keep = s.form == BodyForm::Named
             && ((s.params == ParamForm::Three
                 && s.insts.len() == 1
-                // (the numbering is permuted here anyway: one all-primitive and one mixed instantiation)
-                && matches!(&s.insts[0][0], Ty::Prim(Prim::U8) | Ty::Named(..)))
+                // (the numbering is permuted here anyway: the all-primitive instantiation; thorough: a mixed one too)
+                && (matches!(&s.insts[0][0], Ty::Prim(Prim::U8)) || (thorough && matches!(&s.insts[0][0], Ty::Named(..)))))
                 || matches!(s.params, ParamForm::ConfigSkipped | ParamForm::ConfigKept));
         if !keep || !wf5_ok(&s) {
             continue;
